@@ -16,6 +16,11 @@ Theorem star_height_le_1 :
   forallb (fun nr => Nat.leb (star_height (re_ast (snd nr))) 1 || mem (fst nr) star_height_exceptions) all_regexes = true.
 Proof. vm_compute. reflexivity. Qed.
 
+(* under every unbounded repetition the alternatives start with different characters (checked over Latin-1) *)
+Theorem loops_have_exclusive_alternatives :
+  forallb (fun nr => loop_alts_disjoint latin1 (re_ast (snd nr))) all_regexes = true.
+Proof. vm_compute. reflexivity. Qed.
+
 Theorem exception_is_last_in_its_pattern :
   (* the exception has star height 3 and nothing follows its nested loop: its first path succeeds *)
   star_height (re_ast re_blockattributes_parse_0) = 3%nat /\
